@@ -85,6 +85,7 @@ def plumbing_rules(ck):
             ck.ok("R-C10-4", "factory " + qn)
     # swapped arguments anywhere in the library
     n_sites = 0
+    n_make_unique = [0]
     for qn, fl in whole.functions.items():
         for fn in fl:
             loc = ir.locstr(fn)
@@ -92,11 +93,17 @@ def plumbing_rules(ck):
                 continue
             for c in plumbing.calls(fn):
                 name = c.get("callee") or c.get("ctor")
+                if name and name.startswith("std::make_unique<"):
+                    import re
+                    mm = re.match(r"std::make_unique<\s*([A-Za-z_0-9:]+)", name)
+                    if mm:
+                        name = "%s::%s" % (mm.group(1), mm.group(1).rsplit("::", 1)[-1])
+                        n_make_unique[0] += 1
                 cands = [f for f in whole.fns(name) if len(f["params"]) == len(c["args"])] if name else []
                 if len(cands) != 1 or len(c["args"]) < 2:
                     continue
-                if not ir.locstr(cands[0]).startswith(("src/", "include/")):
-                    continue
+                if not ir.locstr(cands[0]).startswith(("src/", "include/")) or ir.locstr(cands[0]).startswith("include/LinearAlgebra/"):
+                    continue  # generic vector kernels are symmetric in some arguments (a swap there can be neutral); their meaning is C12's kernel rule
                 n_sites += 1
                 sw = plumbing.swapped_arguments(whole, c, cands[0])
                 key = "roles %s -> %s at %s" % (qn, name, ir.locstr(c))
@@ -110,7 +117,8 @@ def plumbing_rules(ck):
                     ck.ok("R-C10-4", key)
     if n_sites < 40:
         raise ir.AnalysisBroken("only %d driver-layer call sites with two or more arguments were resolved (>= 40 confirmed by hand)" % n_sites)
-    ck.extra["driver_call_sites_checked_for_swapped_arguments"] = n_sites
+    ck.extra["call_sites_checked_for_swapped_arguments"] = n_sites
+    ck.extra["of_which_through_make_unique"] = n_make_unique[0]
 
 
 def main(tier):
